@@ -64,6 +64,10 @@ def run(F, rep, tier):
     # happens to say: a function with every type written out is generalised like the one without (shared with C02/C03)
     import c02 as _c02
     _core.borrow(rep, lambda F_, r_: _c02.copy_discipline(F_, r_), lambda o: o["rule"] == "COPY" and o["key"] == "generalised|insertions", F)
+    # .. and a function read out of a blob field is copied per read only where the field's type is known at the read - where the
+    # receiver is annotated: `p.f("a"); p.f(1)` on a field `f: pu *T -> *T` checks with `p: B` and not without (the known finding C02,
+    # C03 and C05 list from their side)
+    _core.borrow(rep, lambda F_, r_: _c02.copy_discipline(F_, r_), lambda o: o["rule"] == "COPY" and o["key"] == "expression|BlobAccess|fresh:Unknown", F)
     # a type variable is bound by its position in the declaration's list
     import engines
     engines.order_preserved(F, rep, "ORDER-PRESERVED", ["sylt_compiler::name_resolution::"],
